@@ -74,3 +74,46 @@ Proof.
 Qed.
 Lemma tie_group_is_open d : (0 <? d) = group_is_open d.
 Proof. unfold group_is_open. lia. Qed.
+
+From Verif Require Import Codebase Exclude FsScan.
+(* _scan_file: a cached entry is reused exactly when its checksum equals the file's *)
+Lemma tie_scan_one (supported : pystr -> option pystr) (analyze : pystr -> Z -> analysis) ca f ck res :
+  cache_get ca (fst f) = Some (ck, res) ->
+  scan_one supported analyze (Some ca) f =
+  if reuse_cached_entry true ck (snd f) then (mkSentry (fst f) (snd f) res, false)
+  else (mkSentry (fst f) (snd f) (analyze (match supported (last (fst f) []) with Some l => l | None => [] end) (snd f)), true).
+Proof. intros H. unfold scan_one, reuse_cached_entry. rewrite H. cbn [andb]. reflexivity. Qed.
+Lemma tie_scan_one_no_entry (supported : pystr -> option pystr) (analyze : pystr -> Z -> analysis) ca f :
+  cache_get ca (fst f) = None -> reuse_cached_entry false 0 (snd f) = false /\
+  snd (scan_one supported analyze (Some ca) f) = true.
+Proof. intros H. unfold scan_one, reuse_cached_entry. rewrite H. split; reflexivity. Qed.
+
+(* lex(): line, column, next line start, the single-line fast path, the length kept of a padded token *)
+Lemma tie_lex_position t idx n ls r :
+  lex_loop (t :: r) idx n ls =
+  let '(idx', n', ls') := advance idx n ls (lt_off t) in
+  mkTok (lt_kind t) (lt_val t) (lex_line_number n') (lex_column (lt_off t) ls') :: lex_loop r idx' n' ls'.
+Proof. reflexivity. Qed.
+Lemma tie_lex_advance2 i rest n ls off :
+  advance (i :: rest) n ls off = if off >? i then advance rest (lex_line_number n) (lex_next_line_start i) off else (i :: rest, n, ls).
+Proof. reflexivity. Qed.
+Lemma tie_lex_trim n t :
+  trim_tok n t = mkLtok (lt_off t) (lt_kind t) (firstn (Z.to_nat (lex_trim_length n (lt_off t))) (lt_val t)).
+Proof. reflexivity. Qed.
+Lemma tie_lex_single_line code lts : newline_indices code = [] ->
+  locate code lts = map (fun t => mkTok (lt_kind t) (lt_val t) 1 (lex_single_line_column (lt_off t))) (filter nonempty lts).
+Proof. intros H. unfold locate. rewrite H. reflexivity. Qed.
+
+(* get_balanced_symbol_token_ranges: a closing symbol is paired only when a group is open; the range ends past it *)
+Lemma tie_balanced_close i t r op cl stack : is_symbol t op = false -> is_symbol t cl = true ->
+  balanced_from i (t :: r) op cl stack =
+  if balanced_has_open (Z.of_nat (length stack))
+  then match stack with s :: stack' => (s, Z.to_nat (balanced_range_end (Z.of_nat i))) :: balanced_from (S i) r op cl stack' | [] => [] end
+  else balanced_from (S i) r op cl [].
+Proof.
+  intros Ho Hc. cbn [balanced_from]. rewrite Ho, Hc. unfold balanced_has_open, balanced_range_end.
+  destruct stack as [|s stack']; cbn [length].
+  - reflexivity.
+  - replace (Z.of_nat (S (length stack')) >? 0) with true by lia.
+    replace (Z.to_nat (Z.of_nat i + 1)) with (S i) by lia. reflexivity.
+Qed.
